@@ -1,6 +1,6 @@
 """C09 — Version history is preserved exactly in versioned buckets (DESIGN.md §7 C09)."""
 import hashlib, json, os, random, shutil
-from vlib import common, coq, gobuild, gw, s3c, e2e
+from vlib import common, coq, gobuild, gw, s3c, e2e, hooks
 from vlib.common import coq_list
 
 THEOREMS = ["C09_new_ids_are_fresh", "C09_handed_out_ids_distinct", "C09_reachable_states_satisfy_inv", "C09_ids_unique_per_key",
@@ -30,7 +30,7 @@ class Shadow:
         return [v for v, _m in self.stacks.get(k, [])]
 
 
-def history(chk, cl, bk, rnd, n_ops, idmap):
+def history(chk, cl, bk, rnd, n_ops, idmap, interrupt=None):
     ops, obs, text = [], [], []
     sh = Shadow()
     path = lambda k: "/%s/%s" % (bk, k)
@@ -144,8 +144,10 @@ def history(chk, cl, bk, rnd, n_ops, idmap):
         if x < 0.9: return None
         return rnd.choice([i for i in range(len(idmap) + 1)] or [0])       # an id of another key, or one never handed out
 
-    def do_delete_version(k):
+    def do_delete_version(k, current=False):
         i = pick_version(k)
+        if current and sh.ids(k):
+            i = sh.ids(k)[0]
         r = cl.req("DELETE", path(k), query={"versionId": vstr(i)})
         o = ("delver", r.headers.get("x-amz-delete-marker") == "true") if r.status == 204 else ("err", ERRMAP.get(r.code, r.code), False)
         record("DeleteVersion %d %s" % (KEYS.index(k), cvid(i)), "delete %s version %s" % (k, "null" if i is None else "#%d" % i), o)
@@ -224,7 +226,17 @@ def history(chk, cl, bk, rnd, n_ops, idmap):
     for _ in range(n_ops):
         k = rnd.choice(KEYS[:3] if rnd.random() < 0.9 else KEYS); x = rnd.random()
         if x < 0.28: do_put(k)
-        elif x < 0.33: do_failed_write(k)
+        elif x < 0.33:
+            if interrupt is not None and rnd.random() < 0.5:
+                # an overwrite that dies before it is published (the gateway is killed at a hook site and restarted): nothing was
+                # acknowledged and nothing became visible, so the version history must not change; not an operation of the model
+                where = interrupt(path(k), blob(9500 + len(text)))
+                if text: text[-1] += " ; then an overwrite of %s killed at %s and a restart" % (k, where)
+                chk.count("interrupted-write:%s" % where)
+                if rnd.random() < 0.6:
+                    do_delete_version(k, current=True)      # the version the interrupted overwrite was about to replace
+            else:
+                do_failed_write(k)
         elif x < 0.43: do_delete(k)
         elif x < 0.57: do_delete_version(k)
         elif x < 0.67: do_get(k)
@@ -265,7 +277,7 @@ def run(chk):
     chk.rule = ("a case is one random program (15-45 steps) on a fresh bucket: optional writes before versioning is enabled (the null version), "
                 "then put (plain / CopyObject / multipart completion) / delete / delete-by-version (existing, null, foreign and unknown ids) / "
                 "get / get-and-head-by-version / list-versions (unpaged and paged with max-keys 1-3, following the markers) / enable-suspend "
-                "toggles on four keys, ending with a sweep that reads every remaining version by id; every answer of the real gateway is "
+                "toggles on four keys, interleaved with refused writes and with overwrites killed before publication (gateway restarted), ending with a sweep that reads every remaining version by id; every answer of the real gateway is "
                 "compared with the reference version machine (Model/Versions.v) evaluated in Coq. Non-trivial: at least one overwrite or delete "
                 "of an existing key in a versioned state; distinct by program text.")
     gwbin = gobuild.build_gateway("verif")
@@ -276,13 +288,26 @@ def run(chk):
     hists = []
     n_hist = 60 if quick else 600
     with gw.Site({"iam": False, "versioning": True}, name="c09") as site:
-        g = site.gateway(gwbin)
+        hk = hooks.Hooks(site.base)
+        g = site.gateway(gwbin, extra_env=hk.env())
         cl = s3c.Client(g.port, "root", "rootsecret")
+        def interrupt(pth, body):
+            where = rnd.choice(["posix.putobject.bodywritten", "posix.objversion.copied", "posix.objversion.stored", "posix.objversion.stored", "posix.putobject.beforelink"])
+            g.restart(); hk.clear(); hk.crash_at(where, 1)
+            hk.crash_at("posix.putobject.beforelink", 1)        # (the archiving sites are only passed when there is something to archive)
+            r = cl.req("PUT", pth, body=body)
+            if r.status == -1:
+                try: g.proc.wait(timeout=3)
+                except Exception: pass
+            died = not g.alive()
+            hk.clear(); g.restart()
+            chk.require(died, "c09:setup", "an overwrite armed to die at %s was answered %d" % (where, r.status))
+            return where
         for h in range(n_hist):
             bk = "vb%04d" % h
             chk.require(cl.req("PUT", "/" + bk).status == 200 and cl.req("PUT", "/%s-src" % bk).status == 200, "c09:setup", "CreateBucket failed")
             idmap = {}
-            ops, obs, text = history(chk, cl, bk, rnd, rnd.randint(15, 45), idmap)
+            ops, obs, text = history(chk, cl, bk, rnd, rnd.randint(15, 45), idmap, interrupt)
             hists.append((ops, obs, text))
             chk.case(("hist", tuple(ops)), sum(1 for o in ops if o.startswith(("Put", "Delete"))) >= 3)
             for d in (site.root, site.verdir):
